@@ -28,6 +28,9 @@ class Env:
         recs.insert(3, pub_rec(self.t + 9 * 86400, self.cal.chain(self.t, self.t + 9 * 86400, self.sig.root).root(), refs=['ref one', 'ref two', 'ref three']))
         body = MAGIC + b''.join(x.enc() for x in recs)
         self.pubfile = (body + sig_rec(self.cert.pkcs7_detached(body, work)).enc()).hex()
+        self.pubfile_path = os.path.join(work, 'c19-publications.bin')
+        with open(self.pubfile_path, 'wb') as fh:
+            fh.write(bytes.fromhex(self.pubfile))
 
 
 def honest_sig(h, level=0):
@@ -49,6 +52,8 @@ class Runner:
         if kind == 'tcp_block' and info.get('answered'):
             return 'eof'
         info['answered'] = True
+        if kind == 'http' and 'publications' in info.get('url', ''):
+            return 'resp 200 0 %s 7,100' % self.E.pubfile
         body = self.answer(raw)
         if kind == 'http':
             return 'resp 200 0 %s 7,100' % kexec.hx(body)
@@ -174,6 +179,12 @@ def OPS(E):
         with_pki(r)
         r.c('pubfileparse 0 0 ' + E.pubfile)
 
+    def with_puburl(url):
+        def f(r):
+            with_pki(r)
+            r.c('set_puburl 0 ' + url)
+        return f
+
     def one(cmd, keys=('rc',)):
         def f(r):
             q = r.c(cmd)
@@ -228,6 +239,9 @@ def OPS(E):
         'aggr_config': (with_net, one('getconf 0 aggr', ('rc', 'config'))),
         'pubfile_parse': (with_pki, one('pubfileparse 0 0 ' + E.pubfile)),
         'pubfile_verify': (with_pubfile, one('pubfileverify 0 0')),
+        # the context fetches the file itself: over (simulated) HTTP and from a file:// URL, then PKI-verifies it; the second fetch is served from its cache
+        'pubfile_fetch_http': (with_puburl('http://pub.example/publications.bin'), one('pubfilefetch 0', ('rc', 'npub', 'verify'))),
+        'pubfile_fetch_file_url': (with_puburl('file://' + E.pubfile_path), one('pubfilefetch 0', ('rc', 'npub', 'verify'))),
         'pubfile_lookup': (with_pubfile, one('pubfilelookup 0 0 nearest %d' % (E.t + 5), ('rc', 'found', 'time'))),
         'async_sign_tcp': (with_async('sign'), async_sign),
         'async_conf_tcp': (with_async('sign'), async_conf),
